@@ -68,8 +68,14 @@ Definition cs_of (t : tables) (a : bytes) : list bool :=
 
 Definition ev := event bytes bytes.
 
+(* a key is represented by its canonical 65-byte encoding; the model's encoder does not copy
+   it but marshals the two coordinates again, each padded to 32 bytes (FromECDSAPub) *)
+Definition key_x (k : bytes) : N := of_be_bytes (firstn 32 (skipn 1 k)).
+Definition key_y (k : bytes) : N := of_be_bytes (skipn 33 k).
+Definition m_enc_key (k : bytes) : bytes := marshal_pubkey (key_x k) (key_y k).
+
 Definition m_make_abci (t : tables) (e : ev) : outcome abci_event :=
-  make_abci_event bytes bytes (cs_of t) (fun p => p) (fun k => k) e.
+  make_abci_event bytes bytes (cs_of t) (fun p => p) m_enc_key e.
 Definition m_make_event (t : tables) (a : abci_event) (h : Z) : outcome ev :=
   make_event bytes bytes (cs_of t) (alookup (t_pts t)) (alookup (t_keys t)) a h.
 Definition m_make_events (t : tables) (h : Z) (l : list abci_event) : outcome (list ev) :=
@@ -142,7 +148,7 @@ Definition agree {A : Type} (eqb : A -> A -> bool) (m : outcome A) (r : result A
    96 bytes received (Compress of Uncompress of a valid encoding), the check-in key is
    decompressed through the table *)
 Definition m_app_abci (t : tables) (e : App.event) : outcome abci_event :=
-  app_abci_event bytes bytes (cs_of t) (fun p => p) (fun k => k) (fun g => g)
+  app_abci_event bytes bytes (cs_of t) (fun p => p) m_enc_key (fun g => g)
                  (fun k => match alookup (t_ckeys t) k with Some u => u | None => [] end) e.
 
 Fixpoint list_agree2 {A B : Type} (f : A -> B -> bool) (a : list A) (b : list B) : bool :=
